@@ -38,6 +38,21 @@ CHECKS = {
             "Undisturbed block uploads (lengths 1..64 exhaustive and boundaries, 6 client block sizes, CRC requested/supported or not, 3 read styles) must return exactly the server's value and close the transfer; with CRC negotiated every injected fault must end in an SdoError or in exactly the server's value.",
             "Trusted: reference server; faults without CRC are recorded as observations only (the property promises nothing there).",
             "DESIGN.md section 4, C13"),
+    "C02": ("exploration",
+            "real SdoServer driven through Network.notify by a strict reference SDO client: server-side wire monitor (every response validated), value-source precedence matrix, store/callback comparison, garbage-frame histories from fresh nodes with a never-raises/one-response monitor",
+            "Every response of the real server to generated valid transfers and to arbitrary 1..8-byte frames is validated by an independent CiA 301 client model; uploaded bytes are compared with the reference encoding of the value chosen by the precedence rule (lengths 0..64 exhaustive), downloads with data_store, write-callback arguments and a following upload; an exception escaping notify() or a missing/extra response is a violation.",
+            "Trusted: reference client transcription of CiA 301; 0-byte frames and malformed short abort frames are not judged.",
+            "DESIGN.md section 4, C02"),
+    "C03": ("exploration",
+            "end-to-end typed round trips judged by the reference codec under three delivery modes (inline, seeded threaded bus with sys.monitoring yield/delay injection, python-can virtual bus with real Notifier threads) plus a fragile-driver mode; per-thread unique values as history oracle",
+            "All values of 8/16-bit types (thorough), boundary/random values of wider types, REAL specials, strings and blobs 0..200 bytes are written through the remote accessor (by index, name, dotted name) and read back from both sides; LocalNode.data_store must hold the CiA 301 encoding. 1..8 concurrent client threads on distinct nodes with unrelated noise traffic must never observe a foreign value, lose a response, or overlap sends on the shared bus object.",
+            "Schedules are sampled (seeded delays, injected yields), not enumerated; evidence lists interleaving signatures and injection counts.",
+            "DESIGN.md section 4, C03"),
+    "C06": ("exploration",
+            "refusal matrix against the real SdoServer judged by accepted-code sets, multiplexer echo, store snapshot comparison and callback silence (reference client), repeated through the real client; abort-code decoding with codes injected by the reference server at every protocol step",
+            "Every refusal kind of the property on generated dictionaries (all access types, numeric types x payload lengths 0..9, expedited and segmented, before/between/after successful transfers) must yield exactly one abort frame with an accepted CiA 301 code and the transfer's multiplexer, leave data_store deep-equal and call no write callback; the real client must raise SdoAbortedError with exactly the code on the wire, for documented, boundary and random 32-bit codes at every step of all six transfer kinds, and must not continue an aborted transfer.",
+            "Accepted code sets are listed in the check; the multiplexer of an abort answering ccs=7 is not judged.",
+            "DESIGN.md section 4, C06"),
 }
 
 NOT_BUILT_REASON = "check not built yet in this round (build in progress; see DESIGN.md section 4 for its design)"
